@@ -127,8 +127,8 @@ def run(chk, repo, tier):
             # a writer indexing `parameters[i]` must read all n parameters of a group
             reads = [n for n in ast.walk(f.node) if isinstance(n, ast.Subscript) and unparse(n.value) == 'parameters']
             if reads and mult_vars:
-                ranged = any(isinstance(lp, ast.For) and 'range' in unparse(lp.iter) and names(lp.iter) & mult_vars
-                             for lp in ast.walk(f.node))
+                ranged = any(isinstance(lp, (ast.For, ast.comprehension)) and 'range' in unparse(lp.iter)
+                             and names(lp.iter) & mult_vars for lp in ast.walk(f.node))
                 chk.instance(P1, f'{cls.name}.{mname}: reads all n parameters of an xn group: {ranged}')
                 if not ranged:
                     chk.violation(P1, mod.rel, f'{cls.name}.{mname}', 'parameters[i] for an xn group',
